@@ -7,7 +7,7 @@ ID = 'C06'
 EXES = ['release']
 RULE = ('each event is one public Fq/Fr call (operator in one of its six forms, neg, inverse, pow, is_zero, is_even, ==) on '
         'operands drawn from limb-pattern classes (canonical and Montgomery-targeted), related pairs (a,a) (a,-a) (a,a+-1) '
-        '(a,2^256-a), pairs and squares aimed at Montgomery quotient digits in {0, 1, 2^63, 2^64-1}, pairs and squares solved so that the UNREDUCED accumulator (A*B+K*p)/2^256 equals a boundary value (p, 2^256, 2^256+small, zero/all-ones limbs), pairs (a, c/a) with a boundary product, fixed boundary values and uniform values; the internal Fq squaring / doubling / tripling / halving through the cfg hook; the answer is compared with Python integer arithmetic mod p. '
+        '(a,2^256-a), pairs and squares aimed at Montgomery quotient digits in {0, 1, 2^63, 2^64-1}, pairs and squares solved so that the UNREDUCED accumulator (A*B+K*p)/2^256 equals a boundary value (p, 2^256, 2^256+small, zero/all-ones limbs), pairs (a, c/a) with a boundary product, pairs and squares solved by 2-D lattice reduction so that a chosen event occurs in the MIDDLE of the reduction (high limb overflowing by the pending carry alone in row 1/2; zero quotient digit with a pending carry and an all-ones high limb), fixed boundary values and uniform values; the internal Fq squaring / doubling / tripling / halving through the cfg hook; the answer is compared with Python integer arithmetic mod p. '
         'distinct = distinct (op, form, operands); non-trivial = not both operands in {0, 1}')
 ASSUMPTIONS = ['operands enter through the 32-byte from_slice path and leave through to_slice (both judged on their own in C13/C07)']
 
@@ -80,8 +80,9 @@ def run(ctx, spec):
             if rng.random() < 0.3:
                 # small exponents on bases aimed at the dedicated squaring routine (the only public route to it in Fr):
                 # unreduced square accumulator at a boundary, or Montgomery quotient digits 0 / 2^64-1
-                got = gen.unreduced_square(rng, p) if rng.random() < 0.6 else (gen.mont_digit_square(rng, p), None)
-                if got:
+                kk2 = rng.random()
+                got = gen.unreduced_square(rng, p) if kk2 < 0.45 else (gen.mont_digit_square(rng, p), None) if kk2 < 0.75 else (gen.mid_reduction_square(rng, p), None)
+                if got and got[0] is not None:
                     a = got[0]
                     b = rng.choice([2, 2, 3, 4, 5, 65537])
                     pc = 'square-directed'
@@ -106,11 +107,16 @@ def run(ctx, spec):
                 if kk < 0.35:
                     a = gen.mont_digit_square(rng, q)
                     pc = 'mont-digits-square'
-                elif kk < 0.7:
+                elif kk < 0.65:
                     got = gen.unreduced_square(rng, q)
                     if got:
                         a = got[0]
                         pc = 'unreduced-target-square'
+                elif kk < 0.85:
+                    got = gen.mid_reduction_square(rng, q)
+                    if got is not None:
+                        a = got
+                        pc = 'mid-reduction-square'
                 lines.append('_ raw.fq.sqr %s' % h32(a))
                 exp.append(('fq.raw.sqr', 'ok ' + h32(a * a % q), ('sqr', a), a > 1, pc))
             elif which == 2:
